@@ -38,6 +38,14 @@ def gen_cases(rng, tier):
         a, b, c, d = rng.sample(OPERANDS, 4)
         sp = rng.choice(["", " "])
         texts.append(f"{a}{sp}{o1}{sp}{b}{sp}{o2}{sp}{c}{sp}{o3}{sp}{d}")
+    # all pairs between integer literals only (folded at parse time by the number tower, not by symbolic rules), with a
+    # unary minus on each operand in turn: 2 ** -2 % 7 is 1/4, a negative exponent under a modulus is not a modular inverse
+    for o1, o2 in itertools.product(OPS, repeat=2):
+        for signs in (("", "", ""), ("", "-", ""), ("-", "", ""), ("", "", "-"), ("", "-", "-")):
+            a, b, c = rng.sample(["2", "3", "5", "7", "4", "9"], 3)
+            if o1 in ("**", "^") and o2 in ("**", "^"):
+                a, b, c = rng.sample(["2", "3", "2"], 3)       # a tower stays small
+            texts.append(f"{signs[0]}{a} {o1} {signs[1]}{b} {o2} {signs[2]}{c}")
     # reserved words and ports next to every operator, without spaces
     for o in OPS:
         for w in ("lambda", "in", "#p", "a.#q", "a.b"):
@@ -61,7 +69,8 @@ def gen_cases(rng, tier):
     fn = ["Max(x, y)", "MAX(x, 2)", "min(x, y) + 1", "CEIL(x / 2)", "ceiling(x / 3)", "Floor(x / 2)", "mod(x, 3)", "MOD(7, y)",
           "Log2(x)", "log2(x) * LOG2(y)", "foo(x, y)", "Foo(y, x)", "foo(x, y) - foo(y, x)", "g(f(x), f(f(y)))", "f(x + 1, y * 2, 3)",
           "sin(x) ** 2", "Sin(x) + COS(y)", "gamma(x)", "f(-x)", "f(x) ^ 2", "2 ^ f(x)", "f(a.b, #p)", "max(f(x), g(y, x))",
-          "ceil(x / 2) // 2", "h()", "exp(x)", "Exp(y) * x"]
+          "ceil(x / 2) // 2", "h()", "exp(x)", "Exp(y) * x",
+          "sgn(x - 3)", "sgn(-2) * x", "SGN(x) / 2", "sgn(3)/sgn(5)*3", "sgn(y - x) * sgn(x - y)", "2 ^ sgn(x)", "sgn(0) + sgn(1/3)"]
     texts += fn
     # random trees printed with redundant parentheses
     n_rand = 150 if tier == "quick" else 4000
